@@ -173,6 +173,16 @@ def reachable(w, root=None):
                 for x in v[1]:
                     go(x)
     go(root)
+    # a service is attached to its server from the service's side: a service installed on a reachable server is part
+    # of the model even when no reachable job uses it (it still occupies the server)
+    changed = True
+    while changed:
+        changed = False
+        for n, o in w["objects"].items():
+            if n not in seen and o["cls"] in ("VideoStreaming", "WebApplication", "GenAIModel") \
+                    and o["attrs"].get("server", [None, None])[1] in seen:
+                go(n)
+                changed = True
     return seen
 
 
